@@ -38,6 +38,8 @@ class Obligation:
     expect: str = "unsat"  # "unsat": hyps => goal must be valid; "sat": hyps must be satisfiable (vacuity)
     note: str = ""
     model_vars: dict = field(default_factory=dict)  # name -> z3 term, evaluated in a counter-model for replay
+    group: str = ""  # alternative proofs of ONE clause: the clause is discharged when its `whole` is, or when all its `part`s are
+    role: str = ""
 
 
 class Flow:
@@ -243,7 +245,24 @@ class Exec:
             )
 
     # ------------------------------------------------------------------ obligations
-    def oblige(self, st: State, kind: str, anchor: str, goal, line=0, extra_hyps=(), note="", model_vars=None):
+    def oblige(self, st: State, kind: str, anchor: str, goal, line=0, extra_hyps=(), note="", model_vars=None, _nopeel=False):
+        if not _nopeel and z3.is_quantifier(goal) and goal.is_forall() and goal.num_vars() == 1:
+            peeled = _peel_last(goal)
+            if peeled is not None:
+                # two ways to prove one clause: as a whole (cheap when the last element is unchanged) or peeled into
+                # "all but the last" + "the last element" (cheap when a new last element was just added)
+                before = len(self.obligations)
+                self.oblige(st, kind, anchor, goal, line, extra_hyps, note, model_vars, _nopeel=True)
+                whole = self.obligations[before:]
+                if len(whole) == 1:
+                    gname = whole[0].name
+                    whole[0].group, whole[0].role = gname, "whole"
+                    b2 = len(self.obligations)
+                    for kk, pg in enumerate(peeled):
+                        self.oblige(st, kind, f"{anchor}~peel{kk}", pg, line, extra_hyps, note, model_vars, _nopeel=True)
+                    for o_ in self.obligations[b2:]:
+                        o_.group, o_.role = gname, "part"
+                return
         parts = split_goal(goal)
         if len(parts) > 1:
             for k, p in enumerate(parts):
@@ -1997,8 +2016,13 @@ class Exec:
                 post_view.store[gname] = self.sym_of_type(gspec.type, f"{gname}!witness{_next_id()}", st)
         post_view.old = pre_view
         post_view.guards = []
-        for nm, e in c.ensures.items():
-            st.assume(self.spec_bool(e, post_view))
+        saved_fu = getattr(self, "force_uf", False)
+        self.force_uf = True  # a callee's postcondition is stated over the operation symbols (each with its ground defining equation)
+        try:
+            for nm, e in c.ensures.items():
+                st.assume(self.spec_bool(e, post_view))
+        finally:
+            self.force_uf = saved_fu
         return res
 
     def lex_less(self, a: V, b: V):
@@ -2093,14 +2117,6 @@ def split_goal(g, depth=0):
         return out
     if z3.is_implies(g) and z3.is_and(g.arg(1)):
         return [z3.Implies(g.arg(0), c) for c in split_goal(g.arg(1), depth + 1)]
-    if z3.is_quantifier(g) and g.is_forall() and g.num_vars() == 1 and depth == 0:
-        # range peeling: (forall k. lo <= k < t + 1 ==> P(k))  ==  (forall k. lo <= k < t ==> P(k)) and (lo <= t ==> P(t))
-        peeled = _peel_last(g)
-        if peeled is not None:
-            out = []
-            for part in peeled:
-                out.extend(split_goal(part, depth + 1))
-            return out
     if z3.is_quantifier(g) and g.is_forall():
         b = g.body()
         if z3.is_implies(b) and z3.is_and(b.arg(1)) or z3.is_and(b):
